@@ -259,6 +259,26 @@ WIDGET = {'title': 'Widget', 'type': 'object', 'required': ['id', 'display-name'
 case('objdefault', {'Widget': WIDGET}, 'Widget', 'struct', ingest='add_type')
 case('objdefault_b', {'Widget': WIDGET}, 'Widget', 'struct', settings={'builder': True}, ingest='add_type')
 
+# an externally tagged enum (the shape schemars emits): unit variants, a closed and an open
+# struct variant, a newtype variant with a name that needs a rename
+EVENTS = {'oneOf': [
+    {'type': 'string', 'enum': ['noop', 'shut-down']},
+    {'type': 'object', 'required': ['created'], 'additionalProperties': False,
+     'properties': {'created': {'type': 'object', 'required': ['id'], 'additionalProperties': False,
+                                'properties': {'id': {'type': 'integer', 'format': 'uint8'}, 'flag': {'type': 'boolean'}}}}},
+    {'type': 'object', 'required': ['deleted'], 'additionalProperties': False,
+     'properties': {'deleted': {'type': 'object', 'required': ['id'],
+                                'properties': {'id': {'type': 'integer', 'format': 'uint8'}, 'why': {'type': 'string'}}}}},
+    {'type': 'object', 'required': ['renamed-to'], 'additionalProperties': False,
+     'properties': {'renamed-to': {'type': 'string'}}}]}
+case('events', {'Event': EVENTS}, 'Event', 'extenum')
+# the same with only closed struct variants
+EVENTS_CLOSED = {'oneOf': [EVENTS['oneOf'][0], EVENTS['oneOf'][1],
+                           {'type': 'object', 'required': ['moved'], 'additionalProperties': False,
+                            'properties': {'moved': {'type': 'object', 'required': ['to'], 'additionalProperties': False,
+                                                     'properties': {'to': {'type': 'integer', 'format': 'int16'}}}}}]}
+case('events_closed', {'Event': EVENTS_CLOSED}, 'Event', 'extenum')
+
 # C14: the same schema under other settings must behave the same on the wire
 C14_VARIANTS = {
     'builder': {'builder': True},
@@ -375,6 +395,41 @@ def emit(index):
                   f'integer deny list {c["values"]}: every integer with |n| <= 2^53: Deserialize accepts iff not denied; serializes to the same integer; booleans rejected')
                 h(f'e2_id_{cid}_big', f'|s| bodies::int_deny::<{T}, _>(s, {vals}, true)', ['C05', 'C03'],
                   f'integer deny list {c["values"]}: every i64 with |n| > 2^53: same assertions (known finding: the newtype is backed by f64)')
+        elif kind == 'extenum':
+            try:
+                root = e2gen.tree(root_schema, defs)
+                assert root['k'] == 'extenum'
+            except (e2gen.Unsupported, AssertionError) as e:
+                skipped[cid] = f'not an externally tagged enum in our reading: {e}'
+                continue
+            P = e2gen.Plan
+            nv = len(root['units']) + len(root['variants'])
+            gen_fns = []
+            for v in range(nv):
+                vname = (root['units'] + [x[0] for x in root['variants']])[v]
+                plist = [P(name=f'v{v}', variant=v, descr=f'variant {vname!r}, all members of its content present, strings of one 1-byte scalar')]
+                if v >= len(root['units']):
+                    cn = e2gen.variant_counts(root, v - len(root['units']))
+                    plist.append(P(name=f'v{v}p2', variant=v, widths=(2, 1), descr=f'variant {vname!r}, strings of a 2-byte and a 1-byte scalar'))
+                    for k in range(cn['member']):
+                        plist.append(P(name=f'v{v}m{k}', variant=v, present=set(range(cn['member'])) - {k}, descr=f'variant {vname!r}, member #{k} of its content absent'))
+                    for k in range(cn['obj']):
+                        plist.append(P(name=f'v{v}x{k}', variant=v, mutation=('extra', k), descr=f'variant {vname!r}, object #{k} of its content gets an undeclared member: rejected iff that object is closed'))
+                    for tl in (1, 2):
+                        plist.append(P(name=f'v{v}t{tl}', variant=v, mutation=('badtag', tl), descr=f'variant {vname!r} under an undeclared tag of {tl} letter(s): rejected'))
+                    for k in range(cn['leaf']):
+                        plist.append(P(name=f'v{v}w{k}', variant=v, mutation=('wrong', k, ['Null', 'Bool', 'Int', 'Str'][k % 4]), descr=f'variant {vname!r}, leaf #{k} replaced by a JSON value of another type'))
+                for pl in plist:
+                    fn, em = e2gen.fn_instance(f'inst_{cid}_{pl.name}', T, root, pl)
+                    gen_fns.append(fn)
+                    h(f'e2_inst_{cid}_{pl.name}', f'|s| gen::inst_{cid}_{pl.name}(s)', ['C02', 'C05'],
+                      f'{cid} (externally tagged enum): {pl.descr}: valid => accepted; represented-constraint violation (incl. the tag) => rejected')
+                    if pl.mutation is None:
+                        fn, em = e2gen.fn_roundtrip(f'rt_{cid}_{pl.name}', T, root, pl)
+                        gen_fns.append(fn)
+                        h(f'e2_rt_{cid}_{pl.name}', f'|s| gen::rt_{cid}_{pl.name}(s)', ['C03'],
+                          f'{cid} (externally tagged enum): {pl.descr}: round trip keeps the tag and every declared member, idempotent')
+            extra_code[cid] = '\n\n'.join(gen_fns)
         elif kind in ('struct', 'tuple'):
             try:
                 root = e2gen.tree(root_schema, defs)
